@@ -11,9 +11,9 @@ T4 (conformance)  trusted models of str.rsplit(sep, 1) / str.split(sep, 1) / str
 N  (bounded)      PostProcessor._build_production_name against an INDEPENDENT statement of the naming rules (the rules lib /
                   uniXXXX / suffix / plain are also proved, contract `_build_production_name`; the two ligature rules are
                   run-time only), plus "no exception, no side effect, a str" (also proved: safety + frame obligations).
-R  (bounded)      rename_glyphs on fonts with a 'CFF ' table (computed-key dict comprehension, outside the fragment):
-                  charset and CharStrings keys rewritten with the same map, charstring objects untouched, and
-                  process_glyph_names on CFF fonts: final names unique / legal / kept.
+R  (bounded)      cross-check of the PROVED CFF clauses (contracts rename_glyphs#cff, _rename_glyphs_from_ufo#cff,
+                  process_glyph_names#cff) on really compiled 'CFF ' fonts: charset and CharStrings keys rewritten with the same
+                  map, charstring objects untouched, final names unique / legal / kept — and the SAVED binary agrees (not provable).
 O  (bounded)      the property's observer: compile with production names on and off (TTF, CFF, CFF2, two-master variable
                   TTF and CFF2; kerning + a
                   ligature/alternate feature when the glyphs exist): every table other than post / 'CFF ' byte-identical
